@@ -255,10 +255,12 @@ class _ScriptedChain:
 
 
 class CoupledFixedDatesTwoPaths(Lemma):
-    """CouplingSimulationFixedTimes (real pre_computation and simulate_jumps_with_coupling; one product date; the fine chain
-    and the coupling of a slice abstract): TWO paths simulated one after the other on the same simulator -- the first with
-    two jumps, the second without any: the second path's fine and coarse jump values are 0 (built from its own variates
-    only, nothing of the first path), and the first path's values are those of its own last jump."""
+    """CouplingSimulationFixedTimes (real pre_computation, simulate_jumps_with_coupling and coupling_states_for_a_slice; TWO
+    product dates; the fine chain and the per-jump coupling abstract): two paths simulated one after the other on the same
+    simulator -- the first with two jumps before the first date and none after, the second with one jump after the first
+    date only.  At every date each component carries the running sum of ITS OWN jumps so far (a date without new jump
+    repeats the value before; the coarse running sum goes on across dates), and the second path is built from its own
+    variates only (nothing of the first path)."""
     prop = "C15"
 
     def __init__(self):
@@ -268,38 +270,126 @@ class CoupledFixedDatesTwoPaths(Lemma):
         nm = self.name
         CS = "rpylib.process.coupling.couplingmarkovchain:"
         it = vc.interp
-        T = vc.real("maturity")
-        vc.assume(T > 0)
-        f1, f2, c1, c2 = vc.real("fine_after_jump1"), vc.real("fine_after_jump2"), vc.real("coarse_after_jump1"), vc.real("coarse_after_jump2")
-        chains = [_ScriptedChain([np.array([1, -2])], [np.array([f1, f2], dtype=object)]), _ScriptedChain([np.array([], dtype=int)], [np.array([], dtype=float)])]
+        T1, T2 = vc.real("date1"), vc.real("date2")
+        vc.assume(And(T1 > 0, T1 < T2))
+        f1, f2, f3 = vc.real("fine_after_jump1"), vc.real("fine_after_jump2"), vc.real("fine_after_jump3")
+        dc = vc.reals("coarse_increment", 3)
+        empty_i, empty_f = np.array([], dtype=int), np.array([], dtype=float)
+        chains = [_ScriptedChain([np.array([1, -2]), empty_i], [np.array([f1, f2], dtype=object), empty_f]),
+                  _ScriptedChain([empty_i, np.array([3])], [empty_f, np.array([f3], dtype=object)])]
+        incs = list(dc)
         fine_sim = vc.obj("rpylib.process.markovchain.markovchain:MCSimulationFixedTimes")
         it.hooks["rpylib.process.markovchain.markovchain:MCSimulationFixedTimes.simulate_markov_chain"] = lambda it_, f, b: chains.pop(0)
-        it.hooks[CS + "CouplingSimulation.coupling_states_for_a_slice"] = lambda it_, f, b: np.array([c1, c2], dtype=object)
-        it.hooks["rpylib.product.product:Product.times_grid"] = lambda it_, f, b: np.array([0.0, T], dtype=object)
+        it.hooks[CS + "CouplingSimulation.coupling_state"] = lambda it_, f, b: incs.pop(0)
+        it.hooks["rpylib.product.product:Product.times_grid"] = lambda it_, f, b: np.array([0.0, T1, T2], dtype=object)
         fine = vc.obj("rpylib.process.markovchain.markovchain:MarkovChainProcess", _path_simulation=fine_sim)
-        cp = vc.obj(CS + "CouplingMarkovChain", fine_process=fine)
+        cp = vc.obj(CS + "CouplingMarkovChain", fine_process=fine, grid=vc.obj("rpylib.grid.spatial:CTMCGrid", origin=0.0))
         sim = vc.new(CS + "CouplingSimulationFixedTimes", cp)
         vc.method(sim, "pre_computation", 2, vc.obj("rpylib.product.product:Product"))
         a_f, a_c = vc.method(sim, "simulate_jumps_with_coupling")
-        a_f, a_c = [x for x in np.ravel(np.asarray(a_f, dtype=object)).tolist()], [x for x in np.ravel(np.asarray(a_c, dtype=object)).tolist()]     # read before the next path
+        a_f, a_c = np.ravel(np.asarray(a_f, dtype=object)).tolist(), np.ravel(np.asarray(a_c, dtype=object)).tolist()     # read before the next path
         b_f, b_c = vc.method(sim, "simulate_jumps_with_coupling")
         b_f, b_c = np.ravel(np.asarray(b_f, dtype=object)).tolist(), np.ravel(np.asarray(b_c, dtype=object)).tolist()
-        vc.check(nm + "::first-path-carries-the-values-of-its-own-last-jump", len(a_f) == 1 and len(a_c) == 1 and And(compare(a_f[0], f2, "=="), compare(a_c[0], c2, "==")))
-        vc.check(nm + "::second-path-without-jump-has-no-jump-value", len(b_f) == 1 and len(b_c) == 1 and And(compare(b_f[0], 0, "=="), compare(b_c[0], 0, "==")))
+        ok = all(len(x) == 2 for x in (a_f, a_c, b_f, b_c))
+        vc.check(nm + "::one-value-per-date-and-component", ok)
+        if not ok:
+            return
+        vc.check(nm + "::first-path-carries-the-running-sums-of-its-own-jumps-at-both-dates",
+                 And(compare(a_f[0], f2, "=="), compare(a_f[1], f2, "=="), compare(a_c[0], dc[0] + dc[1], "=="), compare(a_c[1], dc[0] + dc[1], "==")))
+        vc.check(nm + "::second-path-is-built-from-its-own-jump-only",
+                 And(compare(b_f[0], 0, "=="), compare(b_c[0], 0, "=="), compare(b_f[1], f3, "=="), compare(b_c[1], dc[2], "==")))
 
     def replay(self, model, clause, case):
         from types import SimpleNamespace
         from rpylib.process.coupling.couplingmarkovchain import CouplingSimulationFixedTimes
-        chains = [_ScriptedChain([np.array([1, -2])], [np.array([0.3, 0.1])]), _ScriptedChain([np.array([], dtype=int)], [np.array([])])]
+        e_i, e_f = np.array([], dtype=int), np.array([])
+        chains = [_ScriptedChain([np.array([1, -2]), e_i], [np.array([0.3, 0.1]), e_f]), _ScriptedChain([e_i, np.array([3])], [e_f, np.array([0.45])])]
         fine_sim = SimpleNamespace(simulate_markov_chain=lambda: chains.pop(0))
-        cp = SimpleNamespace(fine_process=SimpleNamespace(_path_simulation=fine_sim))
+        cp = SimpleNamespace(fine_process=SimpleNamespace(_path_simulation=fine_sim), grid=SimpleNamespace(origin=0.0))
         sim = CouplingSimulationFixedTimes(cp)
-        sim.coupling_states_for_a_slice = lambda sl: np.array([0.25, 0.125])
-        sim.pre_computation(2, SimpleNamespace(times_grid=lambda: np.array([0.0, 1.0])))
+        incs = [0.25, -0.125, 0.5]
+        sim.coupling_state = lambda inc: incs.pop(0)
+        sim.pre_computation(2, SimpleNamespace(times_grid=lambda: np.array([0.0, 1.0, 2.0])))
         a = [np.array(x, dtype=float).copy() for x in sim.simulate_jumps_with_coupling()]
         b = [np.array(x, dtype=float).copy() for x in sim.simulate_jumps_with_coupling()]
-        bad = not (np.allclose(a[0], [0.1]) and np.allclose(a[1], [0.125]) and np.allclose(b[0], [0.0]) and np.allclose(b[1], [0.0]))
-        return (bool(bad), {"first_path (fine, coarse)": [a[0].tolist(), a[1].tolist()], "second_path_without_jump (fine, coarse)": [b[0].tolist(), b[1].tolist()]})
+        bad = not (np.allclose(a[0], [0.1, 0.1]) and np.allclose(a[1], [0.125, 0.125]) and np.allclose(b[0], [0.0, 0.45]) and np.allclose(b[1], [0.0, 0.5]))
+        return (bool(bad), {"first_path (fine, coarse) at the two dates": [a[0].tolist(), a[1].tolist()], "expected": [[0.1, 0.1], [0.125, 0.125]],
+                            "second_path (fine, coarse)": [b[0].tolist(), b[1].tolist()], "expected_second": [[0.0, 0.45], [0.0, 0.5]]})
+
+
+class CoupledJumpTimesRunningSum(Lemma):
+    """CouplingSimulationWithJumpTimes.simulate_jumps_with_coupling (real body and real coupling_states_for_a_slice; two
+    product-date intervals -- one jump in the first, none or two in the second; the fine chain and the per-jump coupling
+    abstract): the fine values are the chain's values in time order and the coarse values the running sum of ALL coarse
+    increments so far (it goes on from one interval to the next), one value per jump time."""
+    prop = "C15"
+    cases = ((1, 2), (1, 0), (0, 2))
+
+    def __init__(self):
+        self.name = "property:coupled-jump-times-running-sum"
+
+    def prove(self, vc, counts):
+        nm = f"{self.name}[{counts}]"
+        CS = "rpylib.process.coupling.couplingmarkovchain:"
+        it = vc.interp
+        n = sum(counts)
+        fv = vc.reals("fine_value", n)
+        dc = vc.reals("coarse_increment", n)
+        jt = vc.reals("jump_time", n)
+        incs_f, vals, k = [], [], 0
+        for c in counts:
+            incs_f.append(np.array([1] * c, dtype=int))
+            vals.append(np.array(fv[k:k + c], dtype=object) if c else np.array([], dtype=float))
+            k += c
+
+        class Chain:
+            states_increments, values, times = incs_f, vals, np.array(jt, dtype=object)
+        incs = list(dc)
+        fine_sim = vc.obj("rpylib.process.markovchain.markovchain:MCSimulationWithJumpTimes")
+        it.hooks["rpylib.process.markovchain.markovchain:MCSimulationWithJumpTimes.simulate_markov_chain"] = lambda it_, f, b: _ScriptedChain3(incs_f, vals, np.array(jt, dtype=object))
+        it.hooks[CS + "CouplingSimulation.coupling_state"] = lambda it_, f, b: incs.pop(0)
+        fine = vc.obj("rpylib.process.markovchain.markovchain:MarkovChainProcess", _path_simulation=fine_sim)
+        cp = vc.obj(CS + "CouplingMarkovChain", fine_process=fine, grid=vc.obj("rpylib.grid.spatial:CTMCGrid", origin=0.0))
+        sim = vc.new(CS + "CouplingSimulationWithJumpTimes", cp)
+        times, fine_v, coarse_v = vc.method(sim, "simulate_jumps_with_coupling")
+        fine_v, coarse_v = np.ravel(np.asarray(fine_v, dtype=object)).tolist(), np.ravel(np.asarray(coarse_v, dtype=object)).tolist()
+        vc.check(nm + "::one-value-per-jump-time", len(fine_v) == n and len(coarse_v) == n and len(as_list(times)) == n)
+        if len(fine_v) != n or len(coarse_v) != n:
+            return
+        vc.check(nm + "::fine-values-in-time-order", And(*[compare(fine_v[i], fv[i], "==") for i in range(n)]))
+        run, want = 0, []
+        for i in range(n):
+            run = run + dc[i]
+            want.append(run)
+        vc.check(nm + "::coarse-value-is-the-running-sum-of-all-coarse-increments-so-far", And(*[compare(coarse_v[i], want[i], "==") for i in range(n)]))
+
+    def replay(self, model, clause, counts):
+        from types import SimpleNamespace
+        from rpylib.process.coupling.couplingmarkovchain import CouplingSimulationWithJumpTimes
+        n = sum(counts)
+        fv = [0.1 * (i + 1) for i in range(n)]
+        dc = [0.25, -0.125, 0.5][:n]
+        incs_f, vals, k = [], [], 0
+        for c in counts:
+            incs_f.append(np.array([1] * c, dtype=int))
+            vals.append(np.array(fv[k:k + c]))
+            k += c
+        ch = _ScriptedChain3(incs_f, vals, np.linspace(0.1, 0.9, n))
+        cp = SimpleNamespace(fine_process=SimpleNamespace(_path_simulation=SimpleNamespace(simulate_markov_chain=lambda: ch)), grid=SimpleNamespace(origin=0.0))
+        sim = CouplingSimulationWithJumpTimes(cp)
+        left = list(dc)
+        sim.coupling_state = lambda inc: left.pop(0)
+        try:
+            t_, f_, c_ = sim.simulate_jumps_with_coupling()
+        except Exception as e:
+            return (True, {"jumps_per_interval": list(counts), "exception": f"{type(e).__name__}: {e}"})
+        want = np.cumsum(dc)
+        return (not (np.allclose(np.ravel(f_), fv) and np.allclose(np.ravel(c_), want)), {"jumps_per_interval": list(counts), "coarse_values": np.ravel(c_).tolist(), "running_sum_of_coarse_increments": want.tolist()})
+
+
+class _ScriptedChain3:
+    def __init__(self, increments, values, times):
+        self.states_increments, self.values, self.times = increments, values, times
 
 
 class JumpTimesDirect(Lemma):
@@ -565,7 +655,7 @@ class ChainRunningSum(Lemma):
         return (got != want, {"mode": mode, "jumps_per_interval": list(counts), "sampled_state_values": flat, "jump_component": got, "running_sum": want})
 
 
-UNITS = [FixedDatesDirect(), FixedDatesPreComputation(), JumpTimesDirect(), CoupledJumpTimesPath(), CoupledFixedDatesTwoPaths(), BuildFinerGrid(), MaxStepPath(), ChainRunningSum()]
+UNITS = [FixedDatesDirect(), FixedDatesPreComputation(), JumpTimesDirect(), CoupledJumpTimesPath(), CoupledFixedDatesTwoPaths(), CoupledJumpTimesRunningSum(), BuildFinerGrid(), MaxStepPath(), ChainRunningSum()]
 def LATE_UNITS():
     # "fine and coarse components stay aligned": which diffusion coefficient each component of the coupled pair uses after a
     # level change is the contract of CouplingMarkovChain.next_level (kept with the coupling, c03)
